@@ -653,7 +653,7 @@ func MaxLengthPath(cur *Node, prev *Node) ([]*Edge, float64, error) {
 			if err != nil {
 				return nil, -1, err
 			}
-			if l+e.Length() > curlength {
+			if potentialedges == nil || l+e.Length() > curlength {
 				curlength = l + e.Length()
 				potentialedges = append(edges, e)
 			}
